@@ -259,7 +259,7 @@ func genC16(rng *rand.Rand, n int, tier string, emit func(*Sx)) {
 		case 0:
 			method = "HEAD"
 		case 1:
-			method = []string{"POST", "PUT", "DELETE", "OPTIONS", "get"}[rng.Intn(5)]
+			method = []string{"POST", "PUT", "DELETE", "OPTIONS", "get", "G", "EAD", "T,H", "HE"}[rng.Intn(9)] // look-alikes of GET/HEAD too
 		}
 		index := ""
 		if rng.Intn(5) == 0 {
